@@ -23,7 +23,7 @@ MUT = {
  "c08-inplace": ("C08", "lib/python/pyflyby/_file.py", '    write_file(temp_filename, data)\n    try:\n        st = os.stat(str(filename))', '    write_file(filename, data)\n    return\n    try:\n        st = os.stat(str(filename))'),
  "c08-nochmod": ("C08", "lib/python/pyflyby/_file.py", '        os.chmod(str(temp_filename), st.st_mode)\n', '        pass\n'),
  "c08-nopid": ("C08", "lib/python/pyflyby/_file.py", 'Filename("%s.tmp.%s" % (filename, os.getpid(),))', 'Filename("%s.tmp.%s" % (filename, 0,))'),
- "c08-rename-first": ("C08", "lib/python/pyflyby/_file.py", '    if st is not None:\n        os.chmod(str(temp_filename), st.st_mode)', '    if st is not None:\n        os.rename(str(temp_filename), str(filename)); temp_filename = filename\n        os.chmod(str(temp_filename), st.st_mode)'),
+ "c08-rename-first": ("C08", "lib/python/pyflyby/_file.py", '    if st is not None:\n        try:\n            os.chown(', '    if st is not None:\n        os.rename(str(temp_filename), str(filename)); temp_filename = filename\n        try:\n            os.chown('),
  "c08-swallow-rename": ("C08", "lib/python/pyflyby/_file.py", '    os.rename(str(temp_filename), str(filename))\n\n\ndef expand_py', '    try:\n        os.rename(str(temp_filename), str(filename))\n    except OSError:\n        pass\n\n\ndef expand_py'),
  "c08-mode-777": ("C08", "lib/python/pyflyby/_file.py", 'os.chmod(str(temp_filename), st.st_mode)', 'os.chmod(str(temp_filename), st.st_mode & 0o777)'),
  # ---- C09 (lib/python/pyflyby/_cmdline.py)
@@ -45,6 +45,14 @@ MUT = {
                         pass""", """                    e = type_e("While processing %s: %s" % (filename, e))"""),
  "c09-query-first-char": ("C09", "lib/python/pyflyby/_cmdline.py", "if input().strip().lower().startswith('y'):", "if input()[:1] in 'yY':"),
  "c08-hardlink-inplace": ("C08", "lib/python/pyflyby/_file.py", '    temp_filename = Filename("%s.tmp.%s" % (filename, os.getpid(),))\n', '    if os.path.isfile(str(filename)) and not os.path.islink(str(filename)) and os.stat(str(filename)).st_nlink > 1:\n        write_file(filename, data)\n        return\n    temp_filename = Filename("%s.tmp.%s" % (filename, os.getpid(),))\n'),
+ "c08-chown-chmod-one-try": ("C08", "lib/python/pyflyby/_file.py", """            os.chown(str(temp_filename), -1, st.st_gid)
+        except OSError:
+            pass # not member of group
+        # chmod last: chown clears the set-user-ID / set-group-ID bits
+        os.chmod(str(temp_filename), st.st_mode)""", """            os.chown(str(temp_filename), -1, st.st_gid)
+            os.chmod(str(temp_filename), st.st_mode)
+        except OSError:
+            pass # not member of group"""),
  "c08-suffix-at-import": ("C08", "lib/python/pyflyby/_file.py", 'def atomic_write_file(filename: Filename, data):\n    assert isinstance(filename, Filename)\n    data = FileText(data)\n    temp_filename = Filename("%s.tmp.%s" % (filename, os.getpid(),))', '_TMP_SUFFIX = os.getpid()\n\ndef atomic_write_file(filename: Filename, data):\n    assert isinstance(filename, Filename)\n    data = FileText(data)\n    temp_filename = Filename("%s.tmp.%s" % (filename, _TMP_SUFFIX,))'),
 }
 def main(names):
